@@ -20,6 +20,8 @@ import (
 type nodeCache struct {
 	nodes   map[uint64]bool
 	metrics MetricsCollector
+	// number of successful replications submitted so far
+	replicated int
 }
 
 func newNodeCache(metrics MetricsCollector) *nodeCache {
@@ -70,6 +72,7 @@ func (n *nodeCache) SubmitSuccessfulReplication(node netmap.NodeInfo) {
 	const isEC = false
 
 	n.submitReplicaHolder(node)
+	n.replicated++
 	n.metrics.IncPolicerObjectReplicated(isEC)
 }
 
@@ -343,6 +346,8 @@ func (p *Policer) processNodes(ctx context.Context, plc *processPlacementContext
 		}
 	}
 
+	replicatedBefore := plc.checkedNodes.replicated
+
 	if shortage > 0 {
 		p.metrics.SetPolicerConsistency(false)
 		p.hadReplicaShortage.Store(true)
@@ -366,9 +371,11 @@ func (p *Policer) processNodes(ctx context.Context, plc *processPlacementContext
 		)
 
 		p.tryToReplicate(ctx, plc.object.Address, uint32(len(candidates)), candidates, plc.checkedNodes)
-	} else if uncheckedCopies > 0 {
-		// If we have more copies than needed, but some of them are from the maintenance nodes,
-		// save the local copy.
+	}
+
+	if uncheckedCopies > plc.checkedNodes.replicated-replicatedBefore {
+		// If we have enough copies, but some of them are from the maintenance nodes and
+		// are not compensated by the replicas that have just been made, save the local copy.
 		plc.needLocalCopy = true
 		p.log.Debug("some of the copies are stored on nodes under maintenance, save local copy",
 			zap.Int("count", uncheckedCopies))
